@@ -187,13 +187,16 @@ def direct (c : Calc) (s1 s2 : List Int) : Stat := stat c (countsOf s1 s2)
 /-! ### `_PairwiseDistance.run`, the duplicate shortcut and `_expand`
 (code as of repo commit 259ec35c1: `j` is an alias of `i` only if `numpy.array_equal(s1, s2)`) -/
 
-/-- a Python dict keyed by pairs of sequence indices: a partial function (`none` = key absent) -/
-abbrev Dict := Nat → Nat → Option Stat
+/-- a Python dict keyed by pairs of sequence indices: a partial function (`none` = key absent).
+(Wrapped in a structure so that the compiled driver evaluates every update once instead of re-running the
+enclosing fold on each lookup.) -/
+structure Dict where
+  get : Nat → Nat → Option Stat
 
-def dictGet (d : Dict) (k : Nat × Nat) : Option Stat := d k.1 k.2
+def dictGet (d : Dict) (k : Nat × Nat) : Option Stat := d.get k.1 k.2
 
 def dictSet (d : Dict) (k : Nat × Nat) (v : Stat) : Dict :=
-  fun x y => if x = k.1 ∧ y = k.2 then some v else d x y
+  ⟨fun x y => if x = k.1 ∧ y = k.2 then some v else d.get x y⟩
 
 structure RunState where
   dupes : List Nat            -- `dupes` (set of indices)
@@ -230,12 +233,12 @@ def outerStep (c : Calc) (seqs : List (List Int)) (st : RunState) (i : Nat) : Ru
 
 /-- the two nested loops of `run` -/
 def runLoops (c : Calc) (seqs : List (List Int)) : RunState :=
-  (List.range' 0 (seqs.length - 1)).foldl (outerStep c seqs) ⟨[], [], fun _ _ => none, false⟩
+  (List.range' 0 (seqs.length - 1)).foldl (outerStep c seqs) ⟨[], [], ⟨fun _ _ => none⟩, false⟩
 
 /-- "clean the distances so only unique seqs included": delete every key that mentions a duplicate -/
 def clean (st : RunState) : RunState :=
   if st.duped.isEmpty then st
-  else { st with dists := fun x y => if st.dupes.contains x || st.dupes.contains y then none else st.dists x y }
+  else { st with dists := ⟨fun x y => if st.dupes.contains x || st.dupes.contains y then none else st.dists.get x y⟩ }
 
 /-- `run` -/
 def run (c : Calc) (seqs : List (List Int)) : RunState := clean (runLoops c seqs)
